@@ -520,6 +520,58 @@ fn mixed_case(u: &mut Choices) -> CaseResult {
     }
 }
 
+// ------------------------------------------------------------------------------------------------
+// block-level variables in a block that runs on several values: each value sees its own bindings,
+// also through variables defined from other variables of the block
+
+fn block_chain_case(u: &mut Choices) -> CaseResult {
+    let n = u.range(2, 4);
+    let entry = |u: &mut Choices, i: usize| -> V {
+        let port = (i as i64 + 1) * 10;
+        let mut p = vec![("port".to_string(), V::Int(port))];
+        match u.below(4) {
+            0 => {}
+            1 => p.push(("allowed".to_string(), V::Int(port + 1))),
+            _ => p.push(("allowed".to_string(), V::Int(port))),
+        }
+        V::Map(vec![("p".to_string(), V::Map(p)), ("tag".to_string(), V::s(&format!("t{}", i)))])
+    };
+    let items: Vec<V> = (0..n).map(|i| entry(u, i)).collect();
+    let res: Vec<(String, V)> = (0..n).map(|i| (format!("r{}", i), entry(u, i))).collect();
+    let doc = V::Map(vec![("items".into(), V::List(items)), ("res".into(), V::Map(res))]).to_json();
+    let sel = *u.pick(&["items[*]", "res.*", "some items[*]", "some res.*"]);
+    let op = *u.pick(&["==", "<=", "!=", ">"]);
+    let inline = format!("rule r {{\n  {} {{\n    p.port {} p.allowed\n  }}\n}}\n", sel, op);
+    let form = u.below(6);
+    let body = match form {
+        // right-hand side through one / two / three block-level variables
+        0 => format!("    let q0 = p.allowed\n    p.port {} %q0\n", op),
+        1 => format!("    let q0 = p\n    let q1 = %q0.allowed\n    p.port {} %q1\n", op),
+        2 => format!("    let q0 = p\n    let q1 = %q0\n    let q2 = %q1.allowed\n    p.port {} %q2\n", op),
+        // left-hand side through a chain
+        3 => format!("    let l0 = p\n    let l1 = %l0.port\n    %l1 {} p.allowed\n", op),
+        // both sides, defined in the other order (definitions are not ordered)
+        4 => format!("    let r1 = %r0.allowed\n    let l1 = %r0.port\n    let r0 = p\n    %l1 {} %r1\n", op),
+        // a chain that starts from `this`
+        _ => format!("    let t0 = this\n    let t1 = %t0.p\n    let t2 = %t1.allowed\n    p.port {} %t2\n", op),
+    };
+    let abstracted = format!("rule r {{\n  {} {{\n{}  }}\n}}\n", sel, body);
+    let case = json!({"doc": doc, "inline": inline, "abstracted": abstracted, "sig": "c15:status-changed:block-chain"});
+    match compare(&doc, &inline, &abstracted) {
+        Ok(m) => {
+            let st = m.as_ref().and_then(|m| m.get("r").copied());
+            CaseResult::Pass(Info {
+                nontrivial: st.is_some(),
+                key: hash_case(&[&doc, &inline, &abstracted]),
+                classes: vec![format!("block-chain:form:{}", form), format!("block-chain:r:{}", st.map_or("ERROR", |s| s.text()))],
+                evals: 2,
+                sample: Some(case),
+            })
+        }
+        Err((msg, sig)) => CaseResult::Fail(Failure { msg: format!("block-level variables defined from one another, block over {} values: {}", n, msg), sig: if sig.starts_with("panic") || sig.contains("generator") { sig } else { "c15:status-changed:block-chain".into() }, case }),
+    }
+}
+
 pub fn run(tier: Tier, seed: u64) -> i32 {
     let spec = EvidenceSpec {
         rule: "Random core programs x documents; one abstraction per case: a right-hand literal -> `let` (file, rule, block or when scope; optionally shadowing an outer definition of the same name), a prefix of a left-hand query -> `let` + `%v.rest` (at the scope whose context is the clause's context), a block query -> `let`, an unused `let` (literal, unresolved query, or a function call that would raise an error), a rule-body clause -> parameterised rule called with the query or with the literal as argument, or a two-parameter rule whose parameter names are also the caller's variable names, passed crossed over (`zg(%zpb, %zpa)`); the rules of the abstracted program are additionally shuffled in half of the cases (which reference forces the lazy evaluation first). Both programs are evaluated by the tool: every rule of the original must keep its status (or both raise an evaluation error). Stage 'mixed-projections': documents in which a projection (`items[*].k`, `res.*.k`) resolves for some entries and not for others; the clause `prefix.rest <test>` (10 tests, optional `some` / `not`) is compared with `%v.rest <test>` for v bound at file, rule or when-block level, used by another rule first, or passed to a parameterised rule. Exempt: emptiness tests on a bare variable, filters directly after a variable. Non-trivial: the abstracted expression resolves to a value and some rule is not SKIP; distinct by hash of the three texts.".into(),
@@ -527,6 +579,7 @@ pub fn run(tier: Tier, seed: u64) -> i32 {
     };
     execute("C15", tier, seed, spec, &replay, &|run: &Session| {
         let sz = tier.pick(Size::quick(), Size::thorough());
+        run.run_random("block-chains", tier.pick(6_000, 100_000), 60, block_chain_case);
         run.run_random("mixed-projections", tier.pick(20_000, 400_000), 200, mixed_case);
         run.run_random("abstractions", tier.pick(60_000, 1_200_000), tier.pick(1200, 2400), |u| random_case(u, sz));
     })
